@@ -7,6 +7,16 @@ import "bytes"
 // The verification conditions are the automatic ones (no panic of any kind, every loop within its unwind bound,
 // every allocation within alloc_limit) plus "error => nil message".
 
+// a buffer of any length 0..n (the length is a forked choice, the contents are symbolic)
+func c16Buf() []byte {
+	n := vParam("n")
+	data := ndBytes(n)
+	if vParam("anylen") == 1 {
+		return data[:vChoice(n+1)]
+	}
+	return data
+}
+
 func c16Opt() *DecodeOptions {
 	return &DecodeOptions{AddPathIPv4Unicast: ndBool(), AddPathIPv6Unicast: ndBool(), Use32BitASN: ndBool(), ExtendedNextHop: ndBool()}
 }
@@ -87,7 +97,7 @@ func VC16_NLRIs() {
 
 // one NLRI from an arbitrary buffer (the unit the list loops are built from)
 func VC16_NLRI() {
-	data := ndBytes(vParam("n"))
+	data := c16Buf()
 	afi := uint16(AFIIPv4)
 	if ndBool() {
 		afi = AFIIPv6
@@ -103,8 +113,9 @@ func VC16_NLRI() {
 }
 
 func VC16_MPReach() {
-	data := ndBytes(vParam("n"))
+	data := c16Buf()
 	if nh := vParam("nh"); nh >= 0 {
+		vAssume(len(data) > 3)
 		vAssume(data[3] == uint8(nh))
 	}
 	_, _ = deserializeMultiProtocolReachNLRI(data, c16Opt())
@@ -112,7 +123,7 @@ func VC16_MPReach() {
 }
 
 func VC16_MPUnreach() {
-	data := ndBytes(vParam("n"))
+	data := c16Buf()
 	_, _ = deserializeMultiProtocolUnreachNLRI(data, c16Opt())
 	vReach("unit")
 }
